@@ -363,7 +363,8 @@ class Bin(Factory, Container):
         """
         if self.under(x) or self.over(x) or self.nan(x):
             return -1
-        return int(math.floor(self.num * (x - self.low) / (self.high - self.low)))
+        # rounding can push a value just below high onto index num: it belongs to the last bin
+        return min(int(math.floor(self.num * (x - self.low) / (self.high - self.low))), self.num - 1)
 
     def under(self, x):
         """Return ``true`` iff ``x`` is in the underflow region (less than ``low``)."""
